@@ -489,6 +489,24 @@ def run(tier):
                 rsc.append(rf.scenario("rt-%d" % len(rsc), w, ["conn"] * len(w), [{"k": 2, "o": o}, {"k": 4, "o": o}, {"k": 6, "o": o}], opts=dict(o2)))
     fam.execute(binary, rsc)
     evaluations += fam.stats["traces_validated"]
+    # KeepAlive's error: "never reports a sentinel that is not in the chain" -- a ping that fails for another reason than
+    # its timeout must come back with that cause (errors.Is), not as ErrPingTimeout; a real timeout as ErrPingTimeout
+    ka = [{"id": "k%d" % j, "s": sc_} for j, sc_ in enumerate([["fail"], ["ok", "fail"], ["ok", "ok", "fail"], ["hang"], ["ok", "hang"], ["cancelDuring"], ["ok", "cancelBefore"]])]
+    pk = vlib.run_drive(binary, ["run", "keepalive", "-j", "2", "-c", "2", "-timeout", "60s"], stdin="\n".join(json.dumps(x) for x in ka) + "\n", timeout=300)
+    if pk.returncode != 0:
+        raise vlib.Infra("keepalive driver failed: " + pk.stderr[-1000:])
+    want = {"fail": "E", "hang": "pingtimeout", "cancelDuring": "canceled", "cancelBefore": "canceled"}
+    for line in pk.stdout.splitlines():
+        if not line.strip():
+            continue
+        g = json.loads(line)
+        if "res" not in g:
+            raise vlib.Infra("keepalive driver: %s" % line[:300])
+        script = next(x["s"] for x in ka if x["id"] == g["id"])
+        evaluations += 1
+        if g["res"] != want[script[-1]]:
+            v.witness("C19_KeepAliveCause", script[-1], "KeepAlive with ping outcomes %s returned an error of class %s, the cause is %s" % (script, g["res"], want[script[-1]]),
+                      {"script": script, "got": g})
     rc = v.finish()
     distinct_violations = len({(k, w) for k, w, _, _ in v.violations})
     depth, fullbase, maxfails = TIERS[tier]
